@@ -3771,6 +3771,115 @@ let bc_wf_why num_regs fuse p =
                                | None -> Zpos (XO (XI (XO (XO (XI XH))))))
                   | None -> Zpos (XO (XO (XO (XI (XO XH))))))
 
+type rop =
+| REnter
+| RMov of z
+| RGet of z
+| RSet of z * z
+
+type robs =
+| RVal of z
+| RProbe of bool
+
+(** val r_get : rtape -> z -> z tres **)
+
+let r_get t0 k =
+  let p = t_ptr t0 k in
+  if Z.ltb p t0.t_size then TOk (t0.t_buf p) else RawOob p
+
+(** val r_set : rtape -> z -> z -> rtape tres **)
+
+let r_set t0 k v =
+  t_raw_write t0 (t_ptr t0 k) v
+
+(** val r_probe : policy -> z -> z -> bool -> rtape -> z -> rtape tres **)
+
+let r_probe pol mn mx ok t1 d =
+  if t_check t1 (if Z.ltb d Z0 then mn else mx)
+  then TOk t1
+  else t_make_accessible pol ok t1 mn (Z.add mx (Zpos XH))
+
+(** val r_run :
+    policy -> z -> z -> rop list -> bool list -> rtape -> (robs list * rtape)
+    tres **)
+
+let rec r_run pol mn mx ops allocs t0 =
+  match ops with
+  | [] -> TOk ([], t0)
+  | op :: rest ->
+    (match op with
+     | REnter ->
+       let (ok, allocs') =
+         if grows t0 mn (Z.add mx (Zpos XH))
+         then next_alloc allocs
+         else (true, allocs)
+       in
+       (match t_make_accessible pol ok t0 mn (Z.add mx (Zpos XH)) with
+        | TOk t' -> r_run pol mn mx rest allocs' t'
+        | RawOob i -> RawOob i
+        | TooLarge -> TooLarge
+        | AllocFail -> AllocFail)
+     | RMov d ->
+       let t1 = t_mov t0 d in
+       let (ok, allocs') =
+         if grows t1 mn (Z.add mx (Zpos XH))
+         then next_alloc allocs
+         else (true, allocs)
+       in
+       (match r_probe pol mn mx ok t1 d with
+        | TOk t' ->
+          (match r_run pol mn mx rest allocs' t' with
+           | TOk a ->
+             let (vs, tf) = a in
+             TOk (((RProbe
+             (t_check t1 (if Z.ltb d Z0 then mn else mx))) :: vs), tf)
+           | x -> x)
+        | RawOob i -> RawOob i
+        | TooLarge -> TooLarge
+        | AllocFail -> AllocFail)
+     | RGet k ->
+       (match r_get t0 k with
+        | TOk v ->
+          (match r_run pol mn mx rest allocs t0 with
+           | TOk a -> let (vs, tf) = a in TOk (((RVal v) :: vs), tf)
+           | x -> x)
+        | RawOob i -> RawOob i
+        | TooLarge -> TooLarge
+        | AllocFail -> AllocFail)
+     | RSet (k, v) ->
+       (match r_set t0 k v with
+        | TOk t' -> r_run pol mn mx rest allocs t'
+        | RawOob i -> RawOob i
+        | TooLarge -> TooLarge
+        | AllocFail -> AllocFail))
+
+(** val r_spec : rop list -> (z -> z) -> z -> z list **)
+
+let rec r_spec ops cells pos =
+  match ops with
+  | [] -> []
+  | r :: rest ->
+    (match r with
+     | REnter -> r_spec rest cells pos
+     | RMov d -> r_spec rest cells (Z.add pos d)
+     | RGet k -> (cells (Z.add pos k)) :: (r_spec rest cells pos)
+     | RSet (k, v) ->
+       r_spec rest (fun i -> if Z.eqb i (Z.add pos k) then v else cells i) pos)
+
+(** val rops_ok : z -> z -> rop list -> z -> bool **)
+
+let rec rops_ok mn mx ops pos =
+  match ops with
+  | [] -> true
+  | r :: rest ->
+    (match r with
+     | REnter -> rops_ok mn mx rest pos
+     | RMov d -> (&&) (small (Z.add pos d)) (rops_ok mn mx rest (Z.add pos d))
+     | RGet k ->
+       (&&) ((&&) (Z.leb mn k) (Z.leb k mx)) (rops_ok mn mx rest pos)
+     | RSet (k, _) ->
+       (&&) ((&&) (Z.leb mn k) (Z.leb k mx)) (rops_ok mn mx rest pos))
+
 type kind =
 | KPrintIr
 | KPrintBc
